@@ -1006,6 +1006,9 @@ class SBV:
     def __mod__(self, o):
         if isinstance(o, int) and o > 0 and (o & (o - 1)) == 0:
             return SBV(self.t & z3.BitVecVal(o - 1, BVW), o.bit_length() - 1)
+        if isinstance(o, int) and o > 0 and self.bits is not None and self.bits <= BVW - 2:
+            # a non-negative value of known magnitude: unsigned remainder (Python's % for x >= 0)
+            return SBV(z3.URem(self.t, z3.BitVecVal(o, BVW)), min(self.bits, o.bit_length()))
         raise Undecided("bit-vector modulo")
 
     def __floordiv__(self, o):
